@@ -28,10 +28,13 @@ RULE = ("three feature-covering seed documents (embedded TrueType / Type 1 / CFF
         "points; run through extract_text, extract_pages and extract_text_to_fp(xml) under a call budget proportional to "
         "the seed's own cost and a wall-clock alarm; outcome classes: returns / library exception family "
         "(PSException, AssertionError) / leak (type and innermost pdfminer frame) / RecursionError / budget exceeded. "
-        "Guards compared with Model/Guards.v on reference chains of length 95..105 and cycles, and on random form graphs. "
+        "Guards compared with Model/Guards.v on reference chains of length 95..105 and cycles, on random form graphs, and on "
+        "files whose /Prev and /XRefStm entries are redirected to arbitrary sections (cycles, self-links; read order "
+        "observed by wrapping read_xref_from). "
         "Non-trivial: every faulted document.")
 TRUSTED = [
-    "modelled by hand: resolve1's hop limit, the path guards of do_Do / NumberTree._parse / lookup_name, the range limits "
+    "modelled by hand: resolve1's hop limit, the path guards of do_Do / NumberTree._parse / lookup_name, the visited set of "
+    "read_xref_from, the range limits "
     "(Model/Guards.v); exception classes and the work budget are observed on the implementation, fault by fault",
     "the call budget counts Python function calls (sys.setprofile); it bounds work relative to the undamaged seed",
 ]
@@ -44,7 +47,8 @@ MANIFEST_ENTRY = {
                  "classification and a call budget",
     "text": "Theorems: resolve1 returns the end of every chain of <= 100 references and the default on every cycle; "
             "guarded descents (forms, number/name tree Kids) terminate on every finite object graph, cyclic or not, at "
-            "depth <= number of objects + 1; CMap and W ranges take <= 65536 steps and are exact below the limit. "
+            "depth <= number of objects + 1; the chain of cross-reference sections terminates on every graph of /Prev and "
+            "/XRefStm links and reads no section twice; CMap and W ranges take <= 65536 steps and are exact below the limit. "
             "Observed fault by fault over three seed documents and over the trailer / cross-reference-stream / object-stream "
             "dictionaries of a two-revision file: no hang, no RecursionError, no leaked internal error, work "
             "within budget (the one recorded exception: work proportional to the page area in the layout plane).",
@@ -572,8 +576,106 @@ def guard_cases(ctx, n):
         ctx.disagree("forms", {"case": fcases[j][0][:200]}, shown, fcases[j][1])
 
 
+def xchain_cases(ctx, n):
+    """the chain of cross-reference sections: files of 2-4 revisions whose /Prev and /XRefStm entries are redirected to
+    arbitrary sections of the same file (cycles, self-links, shared tails); the order in which PDFDocument reads the
+    sections (observed by wrapping read_xref_from) is compared with Model/Guards.xread"""
+    import random
+    import re
+    from pdfminer.pdfparser import PDFParser
+    from pdfminer.pdfdocument import PDFDocument
+    from pdfwriter import write_history
+    cases = []
+    for i in range(n):
+        r = ctx.sub("xchain", i)
+        nrev = r.randint(2, 4)
+        revs = []
+        for k in range(nrev):
+            defs = {1: {"Type": Name("Catalog"), "Pages": Ref(2)}, 2: {"Type": Name("Pages"), "Kids": [], "Count": 0}} if k == 0 else {}
+            defs[10 + k] = {"Rev": k}
+            form = r.choice(["table", "stream", "hybrid"])
+            revs.append({"defs": defs, "form": form, "packed": {10 + k} if form != "table" else set(), "root": 1})
+        seed = r.randrange(10 ** 6)
+
+        def build(mutate):
+            return write_history([dict(x, defs=dict(x["defs"])) for x in revs], random.Random(seed), mutate=mutate)[0]
+        # first pass: where the sections are and which dictionaries carry links
+        holders = []
+
+        def record(kind, d):
+            if kind in ("trailer", "xrefstream", "hybridtrailer"):
+                holders.append((kind, dict(d)))
+        pdf0 = build(record)
+        starts = [int(m) for m in re.findall(rb"startxref\s+(\d+)", pdf0)]
+        targets = sorted(set(starts) | {d["XRefStm"] for k, d in holders if "XRefStm" in d})
+        plan = {}
+        for idx, (kind, d) in enumerate(holders):
+            for key in ("Prev", "XRefStm"):
+                if key in d and r.random() < 0.7:
+                    same = [t for t in targets if len(str(t)) == len(str(d[key]))]
+                    plan[(idx, key)] = r.choice(same)
+        count = [0]
+
+        def mutate(kind, d):
+            if kind in ("trailer", "xrefstream", "hybridtrailer"):
+                idx = count[0]
+                count[0] += 1
+                for key in ("Prev", "XRefStm"):
+                    if (idx, key) in plan and key in d:
+                        d[key] = plan[(idx, key)]
+        pdf = build(mutate)
+        if [int(m) for m in re.findall(rb"startxref\s+(\d+)", pdf)] != starts:
+            continue                                   # the edit moved a section: not the file that was planned
+        # the links as written: parse every section's trailer dictionary with the implementation's own reader order in mind
+        links = {}
+        for t in targets:
+            seg = pdf[t:t + 4000]
+            m_tr = re.search(rb"trailer\s*<<(.*?)>>", seg, re.S) if seg.startswith(b"xref") else re.search(rb"<<(.*?)>>\s*stream", seg, re.S)
+            body = m_tr.group(1) if m_tr else b""
+            nxt = []
+            for key in (b"XRefStm", b"Prev"):
+                mm = re.search(rb"/" + key + rb"\s+(\d+)", body)
+                if mm:
+                    nxt.append(int(mm.group(1)))
+            links[t] = nxt
+        seen = []
+        orig = PDFDocument.read_xref_from
+
+        def spy(self, parser, start, xrefs, *a, **kw):
+            seen.append(start)
+            return orig(self, parser, start, xrefs, *a, **kw)
+        PDFDocument.read_xref_from = spy
+        try:
+            try:
+                PDFDocument(PDFParser(io.BytesIO(pdf)))
+                outcome = "ok"
+            except RecursionError:
+                outcome = "recursion"
+            except BaseException as e:  # noqa
+                outcome = type(e).__name__
+        finally:
+            PDFDocument.read_xref_from = orig
+        first = []
+        for s_ in seen:
+            if s_ not in first:
+                first.append(s_)
+        ctx.case("xchain", (i, tuple(sorted(plan.items()))), nontrivial=bool(plan), sample={"links": {str(k): v for k, v in links.items()}, "read": first})
+        if outcome == "recursion":
+            ctx.violation("recursion", {"pdf": pdf.hex(), "links": {str(k): v for k, v in links.items()}}, "terminates", outcome,
+                          "a cycle of /Prev or /XRefStm links exhausts the recursion limit")
+            continue
+        if len(first) != len(set(first)) or any(seen.count(x) > 1 + sum(1 for v in links.values() for y in v if y == x) for x in first):
+            ctx.violation("xchain", {"pdf": pdf.hex()}, "each section read once", seen, "a section is read more than once")
+        edges = glist(["(%d, %s)" % (t, glist([str(x) for x in nx])) for t, nx in sorted(links.items())])
+        cases.append(("(%s, %d)" % (edges, starts[-1]), CLs([CZ(x) for x in first])))
+    bad = common.coq_cases("c13x", ["Model.Guards", "Model.GuardsRun"], "run_xread", cases, shard=100)
+    for j, shown in sorted(bad.items()):
+        ctx.disagree("xchain", {"case": cases[j][0][:300]}, shown, cases[j][1])
+
+
 def correspondence(ctx):
     guard_cases(ctx, ctx.n(60, 600))
+    xchain_cases(ctx, ctx.n(60, 600))
     fault_cases(ctx, ctx.n(220, 0), ctx.n(12, 60))
     struct_cases(ctx, ctx.n(60, 0))
     crypt_cases(ctx, ctx.n(80, 0))
